@@ -430,7 +430,10 @@ COMPONENTS = {
 }
 
 PROPS = {
-    'C01': {'comp': 'bulkhead', 'profile': 'ProfC01', 'drift_profile': 'ProfAll'},
+    'C01': {'comp': 'bulkhead', 'profile': 'ProfC01', 'drift_profile': 'ProfAll',
+            # second batch: late polls (time may pass although somebody is runnable) - C01 does not depend on promptness
+            'random': {'quick': [{'runs': 1500}, {'runs': 700, 'args': ['--variant', 'lazy']}],
+                       'thorough': [{'runs': 20000}, {'runs': 5000, 'size': 'quick'}, {'runs': 8000, 'args': ['--variant', 'lazy']}]}},
     'C07': {'comp': 'bulkhead', 'profile': 'ProfC07', 'drift_profile': 'ProfAll'},
     'C03': {'comp': 'circuitbreaker', 'profile': 'ProfC03', 'drift_profile': 'ProfAll'},
     'C09': {'comp': 'circuitbreaker', 'profile': 'ProfC09', 'drift_profile': 'ProfAll',
@@ -452,6 +455,9 @@ PROPS = {
     'C19': {'comp': 'chaos', 'profile': 'full'},
     'C17': {'comp': 'fallback', 'profile': 'full'},
     'C20': {'parts': [{'comp': 'stacks', 'profile': 'transparent+readiness'}, {'comp': 'listeners', 'profile': 'listeners'}, {'comp': 'executor', 'profile': 'executor'}]},
-    'C02': {'comp': 'ratelimiter', 'profile': 'ProfC02', 'drift_profile': 'ProfAll'},
+    'C02': {'comp': 'ratelimiter', 'profile': 'ProfC02', 'drift_profile': 'ProfAll',
+            # second batch: waiters polled late - the bound on admissions does not depend on promptness
+            'random': {'quick': [{'runs': 1500}, {'runs': 700, 'args': ['--variant', 'lazy']}],
+                       'thorough': [{'runs': 20000}, {'runs': 5000, 'size': 'quick'}, {'runs': 8000, 'args': ['--variant', 'lazy']}]}},
     'C15': {'comp': 'ratelimiter', 'profile': 'ProfC15', 'drift_profile': 'ProfAll'},
 }
